@@ -152,6 +152,11 @@ fn build(dna: &mut Dna, ctx: &mut Ctx) -> Option<Built> {
     let mut out = junk(dna, true, 200);
     let suffix_n = dna.range(0, 200);
     let mut m = Mix::new(dna.u64());
+    // pair mode: another accepted stream sits directly in front, its zlib trailer missing or cut
+    // to 0..3 bytes, so that the wrapper of S starts right after that stream's deflate data
+    let pair = dna.chance(25);
+    let pair_gap = dna.below(9);
+    let pair_size = dna.range(1025, 3000);
     let size = match dna.weighted(&[30, 50, 20]) {
         0 => dna.range(1025, 1100),
         1 => dna.range(1100, 8 * 1024),
@@ -167,6 +172,17 @@ fn build(dna: &mut Dna, ctx: &mut Ctx) -> Option<Built> {
         _ => {
             ctx.discard("S is not accepted by decompress_deflate_stream on its own");
             return None;
+        }
+    }
+    let mut pair_note = "";
+    if pair {
+        let (s0, p0, _d0) = gen_embedded_stream(dna, false, pair_size);
+        if p0.len() > 1024 && matches!(lib_split(&s0, true), Ok(Ok(ref r)) if r.size == s0.len()) {
+            out.extend_from_slice(&[0x78, 0x9c]);
+            out.extend_from_slice(&s0);
+            out.extend((0..pair_gap).map(|_| safe_junk_byte(&mut m)));
+            pair_note = "after-adjacent-stream:";
+            ctx.class(&format!("pair:gap{}", pair_gap));
         }
     }
     let (wrapper, variant_class, (s_start, s_len)) = match wsel {
@@ -215,6 +231,7 @@ fn build(dna: &mut Dna, ctx: &mut Ctx) -> Option<Built> {
         }
     };
     out.extend((0..suffix_n).map(|_| safe_junk_byte(&mut m)));
+    let variant_class = format!("{}{}", pair_note, variant_class);
     Some(Built {
         desc: format!("{} {} around [{}] plain={}", wrapper, variant_class, sdesc, plain.len()),
         file: out,
